@@ -34,11 +34,11 @@ CLAIMS = {
                  'every timestamp from the first transition on: the resolved offset is the type of the latest transition at or before the timestamp (oracle decodes the bytes independently). '
                  '(2) Footer: for every file whose footer follows one of the listed POSIX-TZ class templates (all digits symbolic) and is well formed according to an independent reference reader, the reader accepts it and builds exactly the denoted rule; a fixed rule answers every lookup from the last transition on. '
                  '(3) Rule semantics for ALL accepted rules (Jn / n / Mm.w.d, any rule time in +-167 h, any pair of offsets) and all timestamps of the inner years: each rule instant equals a closed-form calendar reference (Jn skips 29 February, week 5 = last), and the lookup answers daylight time exactly between the two instants in either order; '
-                 'calendar closed forms enter as uninterpreted functions constrained by contracts and lemmas that are obligations of the same run. NOT decided: files outside the listed shapes, the first/last representable year, Offset::Local I/O, agreement of the reference with CPython zoneinfo.', '0/C18',
+                 'calendar closed forms enter as uninterpreted functions constrained by contracts and lemmas that are obligations of the same run. NOT decided: files outside the listed shapes, the first/last representable year, Offset::Local I/O, agreement of the reference with CPython zoneinfo.', '0.8 (C18)',
                  technique='MIR symbolic execution with a bounded byte-string model (class-fixed and free bytes), contracts/UF for calendar kernels -> SMT; independent reference readers in Rust as oracles; native replay'),
     'C19': claim('Reader half: TimeZone::from_tzif executed from MIR on bounded families of byte strings: version-1 files of each length 44..58 with ALL six counts (< 256; two shapes with all 32 bits) and all content bytes symbolic (so overrunning counts, every truncation, every type index are inside), truncated headers, wrong magic, unsupported versions, larger fixed tables exact / short / with trailing bytes, '
                  'version 2/3 files with ~75 footer templates (valid, hostile: missing parts, oversized numbers, NUL, non-UTF-8, stray bytes) and every single-byte ASCII substitution / insertion / deletion of base templates, short all-free footers: the reader returns (Ok or Err), never panics, table / fixed-rule lookups succeed for every i64 timestamp, and every accepted alternating rule has fields in the validated ranges. '
-                 'Lookup half: for EVERY rule the reader can accept (those ranges) x every rule time x every timestamp of the DateTime range the rule lookup returns, except the listed known finding (first/last representable year).', '0/C19',
+                 'Lookup half: for EVERY rule the reader can accept (those ranges) x every rule time x every timestamp of the DateTime range the rule lookup returns, except the listed known finding (first/last representable year).', '0.8 (C19)',
                  technique='MIR symbolic execution with a bounded byte-string model, symbolic-length slices/Vec, contracts for calendar kernels -> SMT; reader post-condition + lookup pre-condition composition; native replay'),
     'C15': claim('from_ymdhms/from_hms/from_seconds/from_nanos/Offset constructors/set_*: Ok exactly for valid arguments with the oracle value; stated ranges exclude the rejected value and contain every accepted one (relational query), over the full parameter domains.', '3/C15'),
 }
